@@ -3,6 +3,7 @@ import PyCraft.Props.C01Dispatch
 import PyCraft.Props.C01DispatchLive
 import PyCraft.Props.C01Buffer
 import PyCraft.Props.C01BufferFrame
+import PyCraft.Props.C01BufferRefine
 #print axioms PyCraft.C01.frameSends_flatten
 #print axioms PyCraft.C01.read_segmentation_invariant
 #print axioms PyCraft.C01.read_bytewise
@@ -48,7 +49,16 @@ import PyCraft.Props.C01BufferFrame
 #print axioms PyCraft.C01Buffer.read_all
 #print axioms PyCraft.C01Buffer.reset_fresh
 #print axioms PyCraft.C01Buffer.send_after_rewind_overwrites
+#print axioms PyCraft.C01BufferFrame.tail_sees
 #print axioms PyCraft.C01BufferFrame.loop_sees_prefixes
 #print axioms PyCraft.C01BufferFrame.read_packet_plain
 #print axioms PyCraft.C01BufferFrame.reads_state
 #print axioms PyCraft.C01BufferFrame.read_packet_compressed
+#print axioms PyCraft.C01BufferRefine.send_at_end
+#print axioms PyCraft.C01BufferRefine.send_at_end_pos
+#print axioms PyCraft.C01BufferRefine.readMoreBuf_refines
+#print axioms PyCraft.C01BufferRefine.decVarIntBuf_refines
+#print axioms PyCraft.C01BufferRefine.idStage_refines
+#print axioms PyCraft.C01BufferRefine.parseBodyBuf_refines
+#print axioms PyCraft.C01BufferRefine.readPacketBuf_eq
+#print axioms PyCraft.C01BufferRefine.readPacketBuf_is_readPacketK
